@@ -279,6 +279,29 @@ class SymInt(int):
 
     __rmul__ = __mul__
 
+    def __mod__(self, o):
+        # Python's % and // round towards minus infinity; for a POSITIVE concrete divisor that is SMT-LIB's mod / div
+        if isinstance(o, int) and not isinstance(o, SymInt) and o > 0:
+            return SymInt(self.t % z3.IntVal(o))
+        raise Unsupported("% with a symbolic or non-positive divisor")
+
+    def __floordiv__(self, o):
+        if isinstance(o, int) and not isinstance(o, SymInt) and o > 0:
+            return SymInt(self.t / z3.IntVal(o))
+        raise Unsupported("// with a symbolic or non-positive divisor")
+
+    def _int_unsup(self, *a, **k):
+        # every other operation of int would silently compute with the proxy's payload
+        raise Unsupported("unmodelled arithmetic on a symbolic integer")
+
+    __rmod__ = __rfloordiv__ = __truediv__ = __rtruediv__ = __divmod__ = __rdivmod__ = __pow__ = __rpow__ = _int_unsup
+    __and__ = __rand__ = __or__ = __ror__ = __xor__ = __rxor__ = __lshift__ = __rlshift__ = __rshift__ = __rrshift__ = __invert__ = _int_unsup
+    __abs__ = __float__ = __round__ = __trunc__ = __floor__ = __ceil__ = __pos__ = _int_unsup
+    bit_length = bit_count = to_bytes = conjugate = as_integer_ratio = _int_unsup
+
+    def __int__(self):
+        return self
+
     def _text(self):
         m = ctx().table.new("int", "int:" + self.name, term=self.t)
         return m.text
@@ -383,6 +406,9 @@ class Name(str):
     __lt__ = __le__ = __gt__ = __ge__ = _unsup
     split = lower = upper = strip = replace = find = index = isdigit = removeprefix = _unsup
     lstrip = rstrip = partition = rpartition = rsplit = count = _unsup
+    capitalize = casefold = center = encode = expandtabs = format = format_map = isalnum = isalpha = isascii = isdecimal = _unsup
+    isidentifier = islower = isnumeric = isprintable = isspace = istitle = isupper = ljust = rfind = rindex = rjust = _unsup
+    splitlines = swapcase = title = translate = zfill = __mod__ = __mul__ = __rmul__ = _unsup
 
     def __add__(self, o):
         return str.__str__(self) + o
